@@ -9,7 +9,7 @@ import re._parser as sre_parse  # regex syntax trees (python >= 3.11)
 
 from ..core import (alpha, AnalysisError, call_name, const, dotted, is_const, kwarg, local_defs, norm, origin,
                     parent_map, walk_local)
-from ..facts import assigned_subscripts, default_of, guards_of, returns_of, enclosing_loops
+from ..facts import assigned_subscripts, default_of, guards_of, returns_of, enclosing_loops, if_leaves
 from ..rules import walk as W
 
 CV = "synkit/CRN/Hypergraph/conversion.py"
@@ -156,7 +156,8 @@ def bipartite(rep):
                "the hash()-based synthetic id is used only when the view carries no edge_id (export without include_edge_id_attr does not claim id round-trip)", node=h)
     # mol labels
     molw = [(t, v, st) for t, v, st in assigned_subscripts(sp.node) if is_const(t.slice, "mol")]
-    rep.ob("O16.1", "R3b", sp, bool(molw) and any(norm(molw[0][1]) == f"{b_['m']}[{sp.params[0]}]" for _, b_ in pfind(f"$m = {w.params[0]}.species_to_mol", w.node, into_nested=False)), alpha(molw[0][2], sp.node) if molw else "mol", "species nodes carry the species' own molecule label")
+    rep.ob("O16.1", "R3b", sp, bool(molw) and any(norm(molw[0][1]) == f"{nm_}[{sp.params[0]}]" for nm_, ds_ in local_defs(w.node).items() for d_ in ds_ if d_.value is not None
+                                     and any(norm(leaf) == f"{w.params[0]}.species_to_mol" for leaf in if_leaves(d_.value))), alpha(molw[0][2], sp.node) if molw else "mol", "species nodes carry the species' own molecule label")
     molr = [(t, v, st) for t, v, st in assigned_subscripts(r.node) if norm(t.value) == f"{HV}.species_to_mol"]
     ok = False
     if molr:
@@ -272,7 +273,7 @@ def species_graph(rep):
     if el and norm(el[0].target) == b["eid"]:
         srcs = [d_.value for d_ in rdefs.get(norm(el[0].iter), []) if d_.kind == "assign"]
         vias = inv.get("via", [])
-        ok = bool(vias) and any(pmatch(f"list({vias[0]})", x) is not None for x in srcs)
+        ok = bool(vias) and any(pmatch(f"list({vias[0]})", leaf) is not None for x in srcs for leaf in if_leaves(x))
     rep.ob("O16.2", "SRC", r, ok, "for eid in list(via)", "every reaction id listed in `via` gets its own entry")
     c = adds[0]
     ml = enclosing_loops(pm, c, r.node)
